@@ -6,12 +6,14 @@ import (
 	"encoding/binary"
 	"errors"
 	"fmt"
+	"io"
 	"runtime"
 	"runtime/debug"
 	"sync"
 	"testing"
 	"time"
 
+	"github.com/tsuna/gohbase"
 	"github.com/tsuna/gohbase/compression"
 	"github.com/tsuna/gohbase/hrpc"
 	"github.com/tsuna/gohbase/pb"
@@ -77,7 +79,7 @@ func c11CellblockOf(frame []byte) []byte {
 		return nil
 	}
 	b := frame[4:]
-	if n := int(binary.BigEndian.Uint32(frame)); n < len(b) {
+	if n := uint64(binary.BigEndian.Uint32(frame)); n < uint64(len(b)) {
 		b = b[:n]
 	}
 	hl, k := protowire.ConsumeVarint(b)
@@ -390,8 +392,10 @@ func c11Run(c c11Case) (out Outcome) {
 			}
 		case "sizefield":
 			v := uint32(m.Value)
-			if v > 1<<20 {
-				v = 1 << 20 // the statement bounds frames at 1 MiB
+			if v > 1<<20 && v < 1<<31 {
+				// the statement bounds frames at 1 MiB. (2^31 and more is not a size at all - HBase's frame
+				// length is a signed 32-bit integer - and stays as it is: it has to be refused, not reserved)
+				v = 1 << 20
 			}
 			putU32(frame, 0, int64(v))
 		}
@@ -408,7 +412,7 @@ func c11Run(c c11Case) (out Outcome) {
 	if c.UseRaw {
 		codec = nil
 		frame = append([]byte(nil), c.Raw...)
-		if len(frame) >= 4 && binary.BigEndian.Uint32(frame) > 1<<20 {
+		if len(frame) >= 4 && binary.BigEndian.Uint32(frame) > 1<<20 && binary.BigEndian.Uint32(frame) < 1<<31 {
 			binary.BigEndian.PutUint32(frame, 1<<20)
 		}
 	}
@@ -754,7 +758,7 @@ func TestC11_Malformed(t *testing.T) {
 			"cells_per_result vs partial_flag_per_result, cell_block_meta.length, block/chunk lengths) set to hostile "+
 			"constants (0, 1, 0x7fffffff, 0xffffffff, -1 ...), multi result index / missing / duplicate / extra region "+
 			"results, exceptions without class name or stack trace, absent call id or message, byte flips, truncation, "+
-			"wrong frame size; plus raw byte frames, region-info cell values and compressed streams. Targets: the "+
+			"wrong frame size (declared sizes between 1 MiB and 2^31 are brought down to the 1 MiB of the statement; 2^31 and more - not a size in HBase's framing - is left as it is); plus raw byte frames, region-info cell values and compressed streams. Targets: the "+
 			"DeserializeCellBlocks methods, one step of the connection reader (hook VerifReceive) with the call(s) "+
 			"registered as outstanding, region.ParseRegionInfo, the block decompressor. Buffers have cap == len so that "+
 			"any read outside the received data panics. Oracle: no panic, terminates, and a frame consumed as the "+
@@ -779,7 +783,7 @@ func FuzzC11Receive(f *testing.F) {
 		&pb.MultiResponse{RegionActionResult: []*pb.RegionActionResult{{ResultOrException: []*pb.ResultOrException{{Index: &one, Result: &pb.Result{AssociatedCellCount: &n}}}}}}, block))
 	f.Add(byte(0), wire.BuildRawResponse(&pb.ResponseHeader{CallId: &id, Exception: &pb.ExceptionResponse{}}, nil, nil))
 	f.Fuzz(func(t *testing.T, kind byte, frame []byte) {
-		if len(frame) >= 4 && binary.BigEndian.Uint32(frame) > 1<<20 {
+		if len(frame) >= 4 && binary.BigEndian.Uint32(frame) > 1<<20 && binary.BigEndian.Uint32(frame) < 1<<31 {
 			binary.BigEndian.PutUint32(frame, 1<<20)
 		}
 		target := []string{"rx-get", "rx-scan", "rx-multi", "rx-mutate"}[int(kind)%4]
@@ -844,6 +848,19 @@ type c11cCase struct {
 	// TableLens (kind metacorrupt): additional info:regioninfo values that are well-formed region infos of the
 	// right range naming a table of that many bytes ('x' repeated; 1 = the wrong table "x")
 	TableLens []int `json:"table_lens,omitempty"`
+	// Ranges (kind metacorrupt): additional info:regioninfo values that are well-formed region infos of table t
+	// whose start/stop key (and id) need not be those of the row they are served in - the region's name says
+	// one start key, its info another
+	Ranges []c11Range `json:"ranges,omitempty"`
+	// Final: what the caller does after the malformed answers: "" = a get, "scan" / "rscan" = a whole-table
+	// scan (forward / reversed from "z") which has to end - rows or an error - after a bounded number of rows
+	Final string `json:"final,omitempty"`
+}
+
+type c11Range struct {
+	Start evid.B `json:"start"`
+	Stop  evid.B `json:"stop"`
+	ID    uint64 `json:"id"`
 }
 
 type c11MetaRow struct {
@@ -928,7 +945,13 @@ func c11cMetaInBubble(c c11cCase) (out Outcome) {
 	// (two regions: a whole-table lookup reads rows of regions the cache does not know yet)
 	l := layoutSpec{Table: "t", NServers: 2, Bounds: []evid.B{evid.B("m")}}
 	cl := l.build()
+	var scanRows []sim.ScanRow
+	for _, k := range []string{"a", "b", "c", "d", "n", "o", "row", "s"} {
+		scanRows = append(scanRows, sim.ScanRow{Key: []byte(k), Cells: 1})
+	}
+	cl.ScanHandler = sim.NewScanServer(scanRows, nil).Handle
 	client := newSimClient(cl)
+	bubbleDebug = func() string { return cl.RecentExecs(40) }
 	defer func() {
 		client.Close()
 		drainClient()
@@ -951,6 +974,12 @@ func c11cMetaInBubble(c c11cCase) (out Outcome) {
 	for _, n := range c.TableLens {
 		ri := &pb.RegionInfo{RegionId: proto.Uint64(1000), TableName: &pb.TableName{Namespace: []byte("default"), Qualifier: bytes.Repeat([]byte{'x'}, n)},
 			Offline: proto.Bool(false), Split: proto.Bool(false)}
+		b, _ := proto.Marshal(ri)
+		cl.MetaCorrupt = append(cl.MetaCorrupt, append([]byte("PBUF"), b...))
+	}
+	for _, rg := range c.Ranges {
+		ri := &pb.RegionInfo{RegionId: proto.Uint64(rg.ID), TableName: &pb.TableName{Namespace: []byte("default"), Qualifier: []byte("t")},
+			StartKey: rg.Start, EndKey: rg.Stop, Offline: proto.Bool(false), Split: proto.Bool(false)}
 		b, _ := proto.Marshal(ri)
 		cl.MetaCorrupt = append(cl.MetaCorrupt, append([]byte("PBUF"), b...))
 	}
@@ -980,14 +1009,41 @@ func c11cMetaInBubble(c c11cCase) (out Outcome) {
 	}
 	// (a panic of a background goroutine of the client ends the process: the driver turns that into a
 	// finding from the journal)
-	err, cerr := doOp(client, ctx, "t", opSpec{Kind: "get", Key: evid.B("row"), Marker: "mksecond"})
+	var err, cerr error
+	if c.Final == "" {
+		err, cerr = doOp(client, ctx, "t", opSpec{Kind: "get", Key: evid.B("row"), Marker: "mksecond"})
+	} else {
+		var sopts []func(hrpc.Call) error
+		start, stop := "", ""
+		if c.Final == "rscan" {
+			sopts = append(sopts, hrpc.Reversed())
+			start = "z"
+		}
+		scan, _ := hrpc.NewScanRangeStr(ctx, "t", start, stop, sopts...)
+		sc := client.Scan(scan)
+		n := 0
+		for {
+			_, err = sc.Next()
+			if err != nil {
+				break
+			}
+			if n++; n > 100 {
+				sc.Close()
+				return viol("scan-never-ends", "a %s of a table of 8 rows had returned %d rows and no end after hbase:meta served %d region infos that contradict their rows' keys (and sane ones afterwards)", c.Final, n, len(c.Ranges))
+			}
+		}
+		if err == io.EOF {
+			err = nil
+		}
+		out.Labels = append(out.Labels, "final_"+c.Final)
+	}
 	if cerr != nil {
 		return viol("foreign-response", "%v", cerr)
 	}
 	if err != nil {
 		// an error to the caller is acceptable (C11: result or error); hanging until the deadline is not
 		if errors.Is(err, context.DeadlineExceeded) {
-			return viol("lookup-never-recovers", "hbase:meta served %d malformed rows and sane ones afterwards; the request was still failing 10 virtual minutes later: %v", len(c.Infos)+len(c.Rows), err)
+			return viol("lookup-never-recovers", "hbase:meta served %d malformed rows and sane ones afterwards; the request was still failing 10 virtual minutes later: %v\n%s\n%s", len(c.Infos)+len(c.Rows)+len(c.Ranges), err, cl.RecentExecs(20), func() string { b, _ := gohbase.DebugState(client); return string(b) }())
 		}
 		out.Labels = append(out.Labels, "error_to_caller")
 	}
@@ -1010,8 +1066,9 @@ func TestC11_ClientDecoders(t *testing.T) {
 			"answer carries a counter cell of 0..12 bytes (8 is well-formed) - error, never a panic; (b) the real scanner against the "+
 			"model server of C06 which additionally sends zero-cell partial results ahead of a row's first fragment (structurally valid, "+
 			"inconsistent with the data) and/or scan metrics nobody asked for - the C06 oracle still holds and nothing panics; (c) a region in use has to be re-established and "+
-			"hbase:meta serves 1..3 malformed info:regioninfo values (empty, 1..3 bytes, wrong magic, garbage protobuf, or well-formed ones naming another table / a table name of up to 70000 bytes) before sane ones, read by a request's lookup or by CacheRegions - "+
-			"no goroutine of the client panics and the request recovers or fails, it does not hang; (d) the same with hbase:meta rows whose row key (the "+
+			"hbase:meta serves 1..3 malformed info:regioninfo values (empty, 1..3 bytes, wrong magic, garbage protobuf, or well-formed ones naming another table / a table name of up to 70000 bytes / "+
+			"start and stop keys and an id that contradict the key of the row they are served in) before sane ones, read by a request's lookup or by CacheRegions, followed by a get or a forward / reversed whole-table scan - "+
+			"no goroutine of the client panics and the request recovers or fails, it does not hang, spin, or return rows without end; (d) the same with hbase:meta rows whose row key (the "+
 			"region's name: empty, without its separators, equal to a lookup's search key, raw bytes) and/or info:server value is malformed while "+
 			"info:regioninfo is sound, read by a re-establisher or by the caller's own first lookup. Non-trivial = every case except the "+
 			"well-formed increment; distinct by case hash")
@@ -1074,6 +1131,19 @@ func TestC11_ClientDecoders(t *testing.T) {
 					c.TableLens = append(c.TableLens, rapid.SampledFrom([]int{1, 1, 100, 32764, 32765, 32766, 40000, 70000}).Draw(t, "tablelen"))
 				}
 				if rapid.Bool().Draw(t, "only") {
+					return c
+				}
+			}
+			if rapid.Bool().Draw(t, "ranges") {
+				c.Cold = rapid.Bool().Draw(t, "cold2")
+				c.Final = rapid.SampledFrom([]string{"", "scan", "rscan", "rscan"}).Draw(t, "final")
+				k := rapid.IntRange(1, 3).Draw(t, "nranges")
+				keys := []string{"", "", "a", "m", "m", "row", "z"}
+				for i := 0; i < k; i++ {
+					c.Ranges = append(c.Ranges, c11Range{Start: evid.B(rapid.SampledFrom(keys).Draw(t, "rstart")),
+						Stop: evid.B(rapid.SampledFrom(keys).Draw(t, "rstop")), ID: rapid.SampledFrom([]uint64{1, 1000, 1001, 2000}).Draw(t, "rid")})
+				}
+				if rapid.Bool().Draw(t, "only2") {
 					return c
 				}
 			}
